@@ -638,6 +638,10 @@ func runFrame(fr *frame) {
 			if ps.steps&0x3fff == 0 && fr.i.eng.pastDeadline() {
 				panic(pathAbort{kind: abortStopped, msg: "deadline"})
 			}
+			if ps.termLimit > 0 && ps.steps > ps.termLimit {
+				ps.termLimit = 0
+				panic(pathAbort{kind: abortAssertFail, msg: ps.termMsg})
+			}
 			if ps.steps > max {
 				panic(pathAbort{kind: abortBudget, msg: fmt.Sprintf("instruction budget (%d) exhausted", max)})
 			}
